@@ -10,24 +10,24 @@ SPEC = {
         "GCS parameters restricted to P <= 32 and M <= 2^(P+3) (quotients stay short); sets up to 20,000 elements",
     ],
     "stages": [
-        gen("vh_c51", "c51_gcs", 24000, 400000, min_cases_quick=5000,
+        gen("vh_c51", "c51_gcs", 24000, 400000, max_seconds_quick=600, min_cases_quick=2000,
             floors={"gcs-set": 0.5, "blockfilter-basic": 0.08, "quotient>=2": 0.2, "repeated-elements": 0.2, "bip158-basic-params": 0.15, "empty-set": 0.02, "set>=2000": 0.002},
             rule="GCS encoding == own BIP158 encoder, all elements match (also after re-parse); BlockFilter(BASIC) vs own element rule"),
-        gen("vh_c51", "c51_bloom", 30000, 500000, min_cases_quick=5000,
+        gen("vh_c51", "c51_bloom", 30000, 500000, max_seconds_quick=600, min_cases_quick=2000,
             floors={"live-filter-with-keys": 0.4, "from-wire-bytes": 0.15, "constructed": 0.3, "size-at-limit": 0.02, "funcs-at-limit": 0.01, "empty-filter(match-all)": 0.02,
                     "tx-relevance:script-data": 0.05, "tx-relevance:spent-outpoint": 0.05},
             rule="every inserted key/outpoint contained; filter bytes and contains() == own BIP37 model; touching transactions relevant"),
-        gen("vh_c51", "c51_rolling", 16000, 250000, min_cases_quick=3000,
+        gen("vh_c51", "c51_rolling", 16000, 250000, max_seconds_quick=600, min_cases_quick=1000,
             floors={"inserted>3N": 0.15, "inserted>1.5N": 0.1, "reinserted-keys": 0.3, "tiny-capacity": 0.05, "with-reset": 0.03},
             rule="each of the last N inserted keys is contained at every check point; non-trivial = more than 1.5N insertions"),
-        gen("vh_c51", "c51_pmt", 60000, 1000000, min_cases_quick=10000,
+        gen("vh_c51", "c51_pmt", 60000, 1000000, max_seconds_quick=600, min_cases_quick=4000,
             floors={"n-not-power-of-two": 0.4, "partial-match": 0.3, "no-match": 0.05, "all-match": 0.05, "corruption:true-root": 0.03, "corruption:rejected": 0.05, "n>=500": 0.005},
             rule="ExtractMatches == matched txids + positions + own merkle root; bytes == own BIP37 encoder; corrupted bytes never give the true root with a foreign txid"),
-        gen("vh_c51", "up_golomb_rice", 8000, 150000, rule="upstream fuzz target golomb_rice (own encoder model inside), supplementary"),
-        gen("vh_c51", "up_blockfilter", 8000, 150000, rule="upstream fuzz target blockfilter, supplementary"),
-        gen("vh_c51", "up_bloom_filter", 8000, 150000, rule="upstream fuzz target bloom_filter (insert => contains asserts), supplementary"),
-        gen("vh_c51", "up_rolling_bloom_filter", 8000, 150000, rule="upstream fuzz target rolling_bloom_filter, supplementary"),
-        gen("vh_c51", "up_merkleblock", 8000, 150000, rule="upstream fuzz target merkleblock, supplementary"),
+        gen("vh_c51", "up_golomb_rice", 8000, 150000, max_seconds_quick=600, rule="upstream fuzz target golomb_rice (own encoder model inside), supplementary"),
+        gen("vh_c51", "up_blockfilter", 8000, 150000, max_seconds_quick=600, rule="upstream fuzz target blockfilter, supplementary"),
+        gen("vh_c51", "up_bloom_filter", 8000, 150000, max_seconds_quick=600, rule="upstream fuzz target bloom_filter (insert => contains asserts), supplementary"),
+        gen("vh_c51", "up_rolling_bloom_filter", 8000, 150000, max_seconds_quick=600, rule="upstream fuzz target rolling_bloom_filter, supplementary"),
+        gen("vh_c51", "up_merkleblock", 8000, 150000, max_seconds_quick=600, rule="upstream fuzz target merkleblock, supplementary"),
     ],
 }
 
